@@ -81,7 +81,7 @@ def main():
             "guard": "TASKIQ_VERIF",
             "enable": "n/a - no hook is compiled into /repo: monitors attach at public extension points (AsyncBroker, AckableMessage.ack, "
                       "AsyncResultBackend, TaskiqMiddleware, TaskiqDepends, ScheduleSource, Receiver subclass) and rebind imported module "
-                      "globals (process_manager: Process/Queue/Event/sleep/os/signal; scheduler run: datetime) at run time; checks import "
+                      "globals (process_manager: Process/Queue/Event/sleep/os/signal/current_process and, if present, monotonic/perf_counter/time; scheduler run: datetime) at run time; checks import "
                       "taskiq from $VERIF_REPO (default /repo) working tree",
             "baseline_off_cmd": "cd /repo && /venv/bin/python -m pytest -ra -q -p no:cacheprovider --timeout=900 --continue-on-collection-errors",
             "source_commits": [],
